@@ -574,6 +574,7 @@ func TestRegressC03(t *testing.T) {
 	c03SharedErrorConcurrently(t)
 	c03TimeKeepsItsZone(t)
 	c03ProcessLongRun(t)
+	c03ObjectsIntoUserArrayEncoder(t)
 	// F4: Equals on inline-marshaler / uncomparable Stringer fields must not panic
 	a := zap.Inline(zap.DictObject(zap.Int("a", 1)))
 	if eq, p := equalsNoPanic(a, a); p != nil || !eq {
